@@ -44,7 +44,7 @@ MCBIG_CFG = "INIT Init\nNEXT Next\nINVARIANT NativeOK\nINVARIANT BigOK\nCONSTANT
 # Limits of one library call.  The decisive one is CPU time of the process (a mutant that loops burns
 # CPU; a process starved by other jobs on an oversubscribed machine does not); the wall-clock limit of
 # harness.common.time_limit is kept as an outer guard (a call blocked without consuming CPU).
-CPU_LIMIT = 10
+CPU_LIMIT = 30
 LIMIT = 150
 # after this many non-returning calls a replay chunk stops calling the library (remaining cases: "skip")
 MAX_TIMEOUTS = 2
@@ -286,6 +286,21 @@ def _replay_chunk(arg):
 
 
 def replay(Pj, items, big=False, nproc=1):
+    """Replay all items.  The case lists are millions of small Python objects: a full garbage collection
+    in the middle of a library call took 4-8 s of CPU on the loaded machine and was mistaken for a
+    non-returning call (always at the same case: collections are triggered by allocation counts), so
+    the existing objects are frozen (not traversed by later collections) while replaying."""
+    import gc
+
+    gc.collect()
+    gc.freeze()
+    try:
+        return _replay(Pj, items, big, nproc)
+    finally:
+        gc.unfreeze()
+
+
+def _replay(Pj, items, big, nproc):
     if nproc <= 1 or len(items) < 2000:
         return _replay_chunk((Pj, items, big))
     import multiprocessing
